@@ -207,9 +207,13 @@ func (hc *HashChain) Fill(argb []uint32, quality int, xsize, ysize int, lowEffor
 		chainSlice[size-2] = uint32(hashToFirstIndex[getPixPairHash64(argb[size-2:])])
 	}
 
-	// Decide between parallel and serial second pass.
+	// Decide between parallel and serial second pass. The two passes extend
+	// matches to the left differently and give different chains, so the
+	// choice must depend on the input only, never on GOMAXPROCS (Encode's
+	// output depends only on the image and the options); with one CPU the
+	// parallel pass runs with a single worker.
 	numWorkers := runtime.GOMAXPROCS(0)
-	if numWorkers > 1 && size > 50000 && !lowEffort {
+	if size > 50000 && !lowEffort {
 		hc.fillParallel(argb, xsize, size, iterMax, winSize, numWorkers)
 	} else {
 		hc.fillSerial(argb, xsize, size, iterMax, lowEffort, winSize)
